@@ -1311,7 +1311,11 @@ class CFG:
 
     def materialize(self, max_length):
         "Return a `Chart` with this grammar's weighted language for strings ≤ `max_length`."
-        return self.cnf.language(max_length).filter(lambda x: len(x) <= max_length)
+        # a CNF derivation of a string of length n >= 1 has height <= n; the empty
+        # string (S -> eps) needs height 1
+        return self.cnf.language(max(max_length, 1)).filter(
+            lambda x: len(x) <= max_length
+        )
 
     def to_bytes(self):
         """Convert terminal symbols from strings to bytes representation.
